@@ -49,10 +49,13 @@ def check_clifford_choice(idx: Index, rep: Report):
 
         def __init__(self, bin_op=None, factors=None):
             self.bin_op, self.factors = np.array(bin_op), factors
-    # Z-type generators, as the kernels of molecular Hamiltonians under every encoding of the library are; every generator owns a qubit, and sits on qubits it
+    # Z-type generators, as the kernels of molecular Hamiltonians under every encoding of the library are (plus a single-qubit X on a spare qubit when the
+    # register is wider than the operator); every generator owns a qubit, and sits on qubits it
     # shares with none, some or all of the others - before and after the one it owns
     kernels = (["ZIZI", "IZIZ"], ["ZIIZI", "ZZIII", "IIZIZ"], ["ZZIIZI", "ZIZIIZ", "IZZZII"], ["ZZZIII", "ZIIZII", "IZIIZI", "ZZIIIZ"],
-               ["ZIIIZ", "ZZIII", "ZIZII", "ZIIZI"], ["IZZI", "ZZIZ"], ["ZZZZ"])
+               ["ZIIIZ", "ZZIII", "ZIZII", "ZIIZI"], ["IZZI", "ZZIZ"], ["ZZZZ"],
+               # a register wider than the Hamiltonian's support: the spare qubit contributes a single-qubit X generator (first row of the library's kernel)
+               ["IIIIX", "ZIZII", "IZIZI"], ["IIXI", "ZZII"])
     n = 0
     for words in kernels:
         k = kernel(words)
